@@ -3,7 +3,7 @@ import re
 import common
 
 LEAN_MODULES = ['OpusProps.C18']
-GEN = ['SilkNlsf']
+GEN = ['SilkNlsf', 'SilkSynth']
 SOURCES = ['silk/NLSF_decode.c', 'silk/NLSF_stabilize.c', 'silk/NLSF2A.c', 'silk/LPC_fit.c',
            'silk/LPC_inv_pred_gain.c', 'silk/NLSF_unpack.c', 'silk/gain_quant.c', 'silk/decode_pitch.c',
            'silk/decode_parameters.c', 'silk/tables_NLSF_CB_NB_MB.c', 'silk/tables_NLSF_CB_WB.c',
@@ -11,7 +11,8 @@ SOURCES = ['silk/NLSF_decode.c', 'silk/NLSF_stabilize.c', 'silk/NLSF2A.c', 'silk
            'silk/SigProc_FIX.h', 'silk/macros.h', 'silk/Inlines.h', 'silk/log2lin.c', 'silk/lin2log.c',
            'silk/bwexpander_32.c', 'silk/sort.c', 'silk/table_LSF_cos.c', 'silk/define.h',
            'silk/pitch_est_defines.h', 'silk/structs.h', 'silk/tables_gain.c', 'silk/tables_pitch_lag.c',
-           'celt/arch.h']
+           'celt/arch.h', 'silk/decode_core.c', 'silk/LPC_analysis_filter.c', 'silk/decoder_set_fs.c', 'silk/decode_frame.c',
+           'silk/PLC.c', 'silk/PLC.h', 'silk/CNG.c', 'celt/stack_alloc.h']
 REQUIRED_THEOREMS = ['OpusProps.C18.' + t for t in (
     'cb_wellformed', 'stabilize_post', 'nlsf_decode_ordered', 'nlsf2a_passes_stability',
     'decode_parameters_stable', 'gain_index_inv', 'gain_step_range', 'gain_step_nowrap',
@@ -20,7 +21,9 @@ REQUIRED_THEOREMS = ['OpusProps.C18.' + t for t in (
     'bwexpander32_nowrap', 'lpc_fit_int16', 'nlsf2a_nowrap_d10', 'nlsf2a_nowrap_d16_partial',
     'nlsf2a_d16_unordered_overflows', 'nlsf_decode_nowrap', 'nlsf_decode_domain_from_decoder', 'pitch_domain_from_decoder', 'log2lin_nowrap',
     'gains_dequant_nowrap', 'decode_pitch_nowrap', 'inverse_pred_gain_nowrap',
-    'inverse_pred_gain_reflection_bounded', 'nlsf2a_reflection_bounded')]
+    'inverse_pred_gain_reflection_bounded', 'nlsf2a_reflection_bounded',
+    # index-safety bridge to the synthesis interior
+    'decode_core_indices_in_bounds', 'decode_core_safe_after_decode_pitch')]
 UNPROVED = ['nlsf2a_nowrap_d16 (the full statement is a comment block in OpusProps/C18.lean): for ORDERED NLSF vectors of order 16 '
             'the final subtraction a32_QA1[k] = -/+Qtmp - Ptmp (NLSF2A.c:125-126) fits 32 bits. Proved instead '
             '(nlsf2a_nowrap_d16_partial): everything before that subtraction fits for all in-range inputs, |a32_QA1| < 2^31.66, '
@@ -82,6 +85,27 @@ def _wait_driver(secs=120):
         common.lake_build(['opusmodel'])
 
 
+def _synthidx_harness(ctx):
+    """The index-safety tie: one TU (the repo's decode_core.c etc.) compiled with -fsanitize=thread code generation at
+    -O0 and NO ThreadSanitizer runtime — the compiler-inserted __tsan_read/__tsan_write calls are defined by the
+    harness as access recorders — linked with the recorder/driver TU and the plain library."""
+    import os
+    lib = ctx.lib('plain')
+    out = os.path.join(common.scratch(), 'c18_synthidx_plain')
+    if os.path.exists(out):
+        return out
+    obj = os.path.join(common.scratch(), 'c18_synthidx_inst.o')
+    flags = [f for f in lib.flags if not f.startswith('-W') and f != '-O2' and not f.startswith('-fsanitize')
+             and '_FORTIFY_SOURCE' not in f]
+    cmd = [lib.compiler] + flags + ['-O0', '-w', '-U_FORTIFY_SOURCE', '-fsanitize=thread', '-c'] + lib.defines + \
+        lib.includes + ['-I' + common.HARNESS, os.path.join(common.HARNESS, 'c18_synthidx_inst.c'), '-o', obj]
+    rc, outp = common.sh(cmd)
+    if rc != 0:
+        raise RuntimeError('instrumented TU failed to compile: %s\n%s' % (' '.join(cmd), outp[-3000:]))
+    common.cc_harness(lib, [os.path.join(common.HARNESS, 'c18_synthidx.c')], out, extra=[obj])
+    return out
+
+
 def _tie(*a, **k):
     _wait_driver()
     return common.run_tie(*a, **k)
@@ -97,6 +121,8 @@ def ties(ctx):
     out.append(_tie('silkparams-nlsf2a', [h, 'nlsf2a', s, '12000' if q else '250000']))
     out.append(_tie('silkparams-gains', [h, 'gains', s, '30000' if q else '600000']))
     out.append(_tie('silkparams-pitch', [h, 'pitch', '0' if q else '1']))
+    hs = _synthidx_harness(ctx)
+    out.append(_tie('silkparams-synthidx-core', [hs, 'core', s, '4000' if q else '200000']))
     _branch_notes(h, s, out)
     return out
 
@@ -153,7 +179,7 @@ def _spaced(x, d):
     return all(x[i] - x[i - 1] >= d[i] for i in range(1, len(x)))
 
 
-DECODER_OPS = {'stab', 'unpack', 'nlsfdec', 'nlsf2a', 'invgain', 'lpcfit', 'bwexp32', 'gdeq', 'log2lin', 'pitch',
+DECODER_OPS = {'synthcore', 'stab', 'unpack', 'nlsfdec', 'nlsf2a', 'invgain', 'lpcfit', 'bwexp32', 'gdeq', 'log2lin', 'pitch',
                'decparams'}
 
 
